@@ -53,6 +53,14 @@ def build_machine(total, plan, rec, use_async=False, yields=0):
         tl = states[k].to(states[k + 1])
         tick = tl if tick is None else (tick | tl)
     attrs["tick"] = tick
+    if plan.get("gated"):
+        # `jump` exists everywhere except in the first state: whether it fires depends on the state when its turn comes
+        jump = None
+        for k in range(1, total):
+            tl = states[k].to(states[k + 1])
+            jump = tl if jump is None else (jump | tl)
+        if jump is not None:
+            attrs["jump"] = jump
 
     def body_pre(self, who):
         s = rec.who()
@@ -88,6 +96,8 @@ def build_machine(total, plan, rec, use_async=False, yields=0):
                 raise Boom()
             rec.lines.append({"e": "E", "s": s, "ev": who, "raised": False})
     attrs["on_tick"] = on_tick
+    if plan.get("gated"):
+        attrs["on_jump"] = on_tick
     attrs["__module__"] = "vmod_dispatch"
     cls = StateMachineMetaclass("Counter", (StateMachine,), attrs)
     return cls, on_tick
@@ -188,10 +198,13 @@ class LineScheduler:
 
     def tracer(self, tid):
         codes = self.codes
+        put_code, on_put = getattr(self, "put_code", None), getattr(self, "on_put", None)
 
         def local(frame, event, arg):
             if event == "line":
                 self.boundary(tid, is_hot(frame.f_code, frame.f_lineno))
+            elif event == "return" and frame.f_code is put_code and on_put is not None:
+                on_put(tid)        # the engine's put() has returned: the event is in the queue (or should be)
             return local
 
         def glob(frame, event, arg):
@@ -206,8 +219,16 @@ def run_threads(nsenders, per, plan, schedule):
     rec = Rec()
     total = nsenders * per + len(plan.get("nested", []))
     cls, cb = build_machine(total, plan, rec)
-    sm = cls()
+    sm = cls(allow_event_without_transition=bool(plan.get("gated")))
     sched = LineScheduler(nsenders, schedule, watched_codes([cb.__code__]))
+    # the return of the engine's put() is observed through the tracer (no hook in the library): from then on the event
+    # counts as accepted, in that order
+    try:
+        from statemachine.engines.base import BaseEngine
+        sched.put_code = BaseEngine.put.__code__
+        sched.on_put = lambda tid: rec.lines.append({"e": "put", "s": tid})
+    except Exception:  # noqa: BLE001 - restructured: puts stay internal steps that TLC infers
+        sched.put_code = None
     errors = []
 
     def sender(tid):
@@ -218,7 +239,7 @@ def run_threads(nsenders, per, plan, schedule):
             for n in range(1, per + 1):
                 rec.lines.append({"e": "call", "s": tid, "n": n})
                 try:
-                    sm.send("tick", who={"s": tid, "n": n, "nested": False})
+                    sm.send("jump" if tid in plan.get("gated", []) else "tick", who={"s": tid, "n": n, "nested": False})
                     rec.lines.append({"e": "ret", "s": tid, "exc": False})
                 except Boom:
                     rec.lines.append({"e": "ret", "s": tid, "exc": True})
@@ -284,7 +305,7 @@ def run_asyncio(ntasks, per, plan, choices, yields=1):
         for n in range(1, per + 1):
             rec.lines.append({"e": "call", "s": tid, "n": n})
             try:
-                await sm.send("tick", who={"s": tid, "n": n, "nested": False})
+                await sm.send("jump" if tid in plan.get("gated", []) else "tick", who={"s": tid, "n": n, "nested": False})
                 rec.lines.append({"e": "ret", "s": tid, "exc": False})
             except Boom:
                 rec.lines.append({"e": "ret", "s": tid, "exc": True})
@@ -292,7 +313,7 @@ def run_asyncio(ntasks, per, plan, choices, yields=1):
                 rec.lines.append({"e": "ret", "s": tid, "exc": True, "other": type(e).__name__ + ":" + str(e)[:60]})
 
     async def main():
-        sm = cls()
+        sm = cls(allow_event_without_transition=bool(plan.get("gated")))
         await sm.activate_initial_state()
         box["sm"] = sm
         tasks = [loop.create_task(sender(t, sm)) for t in range(1, ntasks + 1)]
@@ -399,7 +420,7 @@ def run_threads_guided(nsenders, per, plan, script):
     rec = Rec()
     total = nsenders * per + len(plan.get("nested", []))
     cls, cb = build_machine(total, plan, rec)
-    sm = cls()
+    sm = cls(allow_event_without_transition=bool(plan.get("gated")))
     sched = GuidedScheduler(nsenders, script, watched_codes([cb.__code__]))
     errors = []
 
@@ -411,7 +432,7 @@ def run_threads_guided(nsenders, per, plan, script):
             for n in range(1, per + 1):
                 rec.lines.append({"e": "call", "s": tid, "n": n})
                 try:
-                    sm.send("tick", who={"s": tid, "n": n, "nested": False})
+                    sm.send("jump" if tid in plan.get("gated", []) else "tick", who={"s": tid, "n": n, "nested": False})
                     rec.lines.append({"e": "ret", "s": tid, "exc": False})
                 except Boom:
                     rec.lines.append({"e": "ret", "s": tid, "exc": True})
